@@ -191,7 +191,7 @@ VALID_LABELS = ["C", "N+", "O-", "Cl", "Fe3+", "S2-", "*", "Na+", "H", "H", "H+"
 def rand_record_valid(rng):
     """a record whose node labels are element symbols RDKit knows; edges may mention ids no node entry declares"""
     rec = []
-    ids = list(range(1, rng.randint(2, 6)))
+    ids = list(range(rng.choice([0, 1, 1]), rng.randint(2, 6)))
     for s in (0, 1, 2):
         es = []
         for _ in range(rng.randint(0, 5)):
